@@ -227,10 +227,31 @@ std::optional<T> string_to_number(const std::string_view str)
     return {};
 }
 
-inline std::string to_integer_literal(
-    const std::string_view value, const std::string_view type)
+// removes leading zeros from a decimal number, in C++ they would turn it into
+// an octal literal
+inline std::string strip_leading_zeros(const std::string_view number)
 {
-    assert(!value.empty() && (type != "float") && (type != "double"));
+    const auto has_sign =
+        !number.empty() && ((number[0] == '-') || (number[0] == '+'));
+    std::size_t pos = has_sign ? 1 : 0;
+    while((pos + 1 < number.size()) && (number[pos] == '0')
+          && std::isdigit(static_cast<unsigned char>(number[pos + 1])))
+    {
+        pos++;
+    }
+
+    std::string res{number.substr(0, has_sign ? 1 : 0)};
+    res += number.substr(pos);
+    return res;
+}
+
+inline std::string to_integer_literal(
+    const std::string_view original_value, const std::string_view type)
+{
+    assert(
+        !original_value.empty() && (type != "float") && (type != "double"));
+    const auto normalized_value = strip_leading_zeros(original_value);
+    const std::string_view value{normalized_value};
 
     if((type == "int64") && (value[0] == '-'))
     {
@@ -412,7 +433,7 @@ inline std::string numeric_literal_to_value(
             return fmt::format("-::std::numeric_limits<{}>::infinity()", type);
         }
 
-        return std::string{value};
+        return strip_leading_zeros(value);
     }
 
     return utils::to_integer_literal(value, type);
